@@ -18,7 +18,10 @@
 // (emit_maprange_state.go) add rows of the kinds procstate / procstate-ext / procstate-local /
 // procstate-unrecognised (memory of the process that the state machine writes: not rolled back with
 // the store, not shared between processes) and localtime (a Time in the zone of the process used
-// before a UTC conversion).
+// before a UTC conversion).  A whole-program alias scan (emit_maprange_alias.go) adds rows of the kinds
+// procstate-alias / procstate-alias-src: a COPY of a package-level (or keeper-held) sdk.Dec / Int / Coin(s) /
+// big.Int value - it shares the big.Int with the original - handed by address to a decoder or used
+// as the receiver of an in-place method.
 package main
 
 import (
@@ -249,6 +252,7 @@ func init() {
 		rows := maprangeAmbients(c)
 		rows = append(rows, maprangeSortRows(maprangeProcState(c))...)
 		rows = append(rows, maprangeSortRows(maprangeLocalTime(c))...)
+		rows = append(rows, maprangeSortRows(maprangeDefaultAlias(c))...)
 		var b strings.Builder
 		b.WriteString("(* GENERATED by tools/goextract (emit_maprange.go) from the repository source - do not edit.\n")
 		b.WriteString("   Goroutines, select, wall clock, randomness, process environment in x/, types/, app/\n")
@@ -260,8 +264,12 @@ func init() {
 		b.WriteString("   writes to memory of the process through fields of state-machine structs / package-level\n")
 		b.WriteString("   variables, the external types such structs hold, the context-taking types that never leave\n")
 		b.WriteString("   the call stack, aliases the scan cannot follow; Times in the zone of the process used or\n")
-		b.WriteString("   let out of a function before .UTC()).  am_callers = transitive callers of am_func in the\n")
-		b.WriteString("   non-test code (for procstate-ext: the fields that hold the type). *)\n")
+		b.WriteString("   let out of a function before .UTC());\n")
+		b.WriteString("   procstate-alias procstate-alias-src (emit_maprange_alias.go: a copy of a package-level / keeper-held\n")
+		b.WriteString("   Dec / Int / Coin(s) / big.Int value - sharing its big.Int - handed by address to a function that may\n")
+		b.WriteString("   decode into it, or the receiver of an in-place method; the variables the analysis follows).\n")
+		b.WriteString("   am_callers = transitive callers of am_func in the non-test code (for procstate-ext: the fields\n")
+		b.WriteString("   that hold the type; for procstate-alias-src: the functions whose result is an alias of the variable). *)\n")
 		b.WriteString("From Coq Require Import List String.\nImport ListNotations.\nOpen Scope string_scope.\n\n")
 		b.WriteString("Record ambient_site := mkAmbient { am_file : string; am_func : string; am_kind : string; am_what : string; am_callers : list string }.\n\n")
 		b.WriteString("Definition ambient_table : list ambient_site := [\n")
